@@ -64,8 +64,8 @@ func generate(r *simkit.Rand, prop, tier string) *simkit.Plan {
 		p.Arm = "faults"
 		p.Faults = []string{"get_error"}
 	}
-	ops := []string{"save", "remove", "snap", "revert", "revert0", "commit", "restart", "read"}
-	w := []int{r.Range(6, 14), r.Range(0, 2), r.Range(1, 4), r.Range(1, 4), r.Range(0, 1), r.Range(1, 3), r.Range(0, 1), r.Range(0, 3)}
+	ops := []string{"save", "remove", "snap", "revert", "revert0", "commit", "restart", "read", "resave"}
+	w := []int{r.Range(6, 14), r.Range(0, 2), r.Range(1, 4), r.Range(1, 4), r.Range(0, 1), r.Range(1, 3), r.Range(0, 1), r.Range(0, 3), r.Range(0, 2)}
 	pCode, pStore := 0.25, 0.4
 	switch prop {
 	case "C06":
@@ -75,6 +75,7 @@ func generate(r *simkit.Rand, prop, tier string) *simkit.Plan {
 		pCode, pStore = 0.7, 0.15
 		w[1] += 1
 		w[3] += 1
+		w[8] += 2
 	case "C08":
 		pCode, pStore = 0.1, 0.9
 		w[7] += 3
@@ -127,8 +128,11 @@ func generate(r *simkit.Rand, prop, tier string) *simkit.Plan {
 		case "read":
 			st.B = []simkit.HexBytes{keys[r.Intn(len(keys))]}
 		}
-		if faulty && r.Chance(0.1) && (st.Op == "save" || st.Op == "remove" || st.Op == "read") {
+		if faulty && r.Chance(0.1) && (st.Op == "save" || st.Op == "remove" || st.Op == "read" || st.Op == "resave") {
 			st.Fault = "get_error"
+			if len(st.B) == 0 && r.Chance(0.7) {
+				st.FaultAt = r.Range(1, 8) // n-th read of the step (only honoured for saves without storage writes)
+			}
 		}
 		p.Steps = append(p.Steps, st)
 	}
